@@ -298,6 +298,7 @@ static int twinCall(int un, const char* c, U32* res) {
         int pos = c[3] == 'p'; U32 resp = pos ? a(4) : a(3), k; size_t total, o = 0; U8* buf; ssize_t n;
         if (!twLive(a(0)) || tw[a(0)].fd < 0) { *res = 8; return 1; }
         if (!twIovTotal(a(1), a(2), &total)) return 0;
+        if (a(2) > (U32)sysconf(_SC_IOV_MAX)) { *res = 28; return 1; }   /* writev/pwritev: EINVAL beyond IOV_MAX */
         buf = malloc(total + 1);
         for (k = 0; k < a(2); k++) { U32 p = a(1) + 8 * k; memcpy(buf + o, guest.data + ld32(p), ld32(p + 4)); o += ld32(p + 4); }
         n = pos ? pwrite(tw[a(0)].fd, buf, total, (off_t)q(3)) : write(tw[a(0)].fd, buf, total);
@@ -309,8 +310,10 @@ static int twinCall(int un, const char* c, U32* res) {
         int pos = c[3] == 'p'; U32 resp = pos ? a(4) : a(3), k; size_t total, o = 0; U8* buf; ssize_t n;
         if (!twLive(a(0)) || tw[a(0)].fd < 0) { *res = 8; return 1; }
         if (!twIovTotal(a(1), a(2), &total)) return 0;
+        if (a(2) > (U32)sysconf(_SC_IOV_MAX)) { *res = 28; return 1; }
         buf = malloc(total + 1);
-        n = pos ? pread(tw[a(0)].fd, buf, total, (off_t)q(3)) : read(tw[a(0)].fd, buf, total);
+        if (total == 0 && !pos) { struct iovec z; z.iov_base = buf; z.iov_len = 0; n = readv(tw[a(0)].fd, &z, 1); }   /* a zero-length readv */
+        else n = pos ? pread(tw[a(0)].fd, buf, total, (off_t)q(3)) : read(tw[a(0)].fd, buf, total);
         if (n < 0) { *res = twErrno(errno); free(buf); return 1; }
         for (k = 0; k < a(2) && o < (size_t)n; k++) {
             U32 p = a(1) + 8 * k; size_t l = ld32(p + 4);
